@@ -27,6 +27,9 @@ IMG_OPS = ["affine_image", "affine_preimage", "gen_affine_image", "gen_affine_pr
            "gen_affine_image_lhs", "gen_affine_preimage_lhs"]
 DIM_OPS = ["add_dims_embed", "add_dims_project", "expand", "concatenate", "remove_dims", "remove_higher", "fold", "unconstrain", "unconstrain_set", "map_dims",
            "poly_difference", "hull_if_exact", "conv_topo", "poly_hull", "intersection"]
+# recipe plans draw their TARGET operation from the plan's operation set (the state drivers are drawn from ShapeDrivers regardless):
+# with CTOR_BASE every target is one of the plan's own operations
+CTOR_BASE = ["from_cs", "from_gs", "new", "copy_from", "assign", "swap"]
 IMG_BASE = ["from_cs", "from_gs", "new", "min_constraints", "is_empty", "contains", "equals", "constraints", "refine_with_constraint",
             "refine_with_constraints", "add_constraint", "copy_from", "assign", "swap"]
 
